@@ -75,6 +75,11 @@ func Extension(opts ExtensionOpts) extensions.Extension {
 	}
 }
 
+// ForMessage returns an extension with the same options and no elevator alerts recorded.
+func (e extension) ForMessage() extensions.Extension {
+	return Extension(e.opts)
+}
+
 const (
 	// The value of the language field in the description string containing the metadata.
 	MetadataLanguage = "github.com/jamespfennell/gtfs/extensions/nyctalerts/Metadata"
